@@ -645,6 +645,28 @@ Definition make_aeq (ivs : list ivar) (es : list ieq) (avs : list (nat * avar)) 
 Definition clean_deps (populated : list nat) (a : aeq) : aeq :=
   mkAeq (ae_pos a) (ae_id a) (ae_type a) (ae_vars a) (filter (fun j => mem_nat j populated) (ae_deps a)) (ae_nla a) (ae_sibs a).
 
+(* the tail of analyseModel for a model of valid type: dummy equations for the constants, API variables,
+   API equations, cleanUpDependencies *)
+Definition package (ty : mtype) (voi : option vref) (ivs2 : list ivar) (es2 : list ieq) : result :=
+  (* a dummy equation for each true constant *)
+  let consts := filter (fun p => vtype_eqb (iv_type (geti ivs2 p)) VConstant) (seq 0 (length ivs2)) in
+  let es3 := es2 ++ map (new_var_eq ivs2) consts in
+  let avs := make_avars es3 ivs2 0 0 0 in
+  let aeqs := filter_map (make_aeq ivs2 es3 avs) (seq 0 (length es3)) in
+  let populated := map ae_pos aeqs in
+  let aeqs1 := map (clean_deps populated) aeqs in
+  mkResult ty [] voi
+           (map snd (filter (fun x => atype_eqb (av_type (snd x)) AState) avs))
+           (map snd (filter (fun x => negb (atype_eqb (av_type (snd x)) AState)) avs))
+           aeqs1 (map ie_id es3).
+
+Definition model_type (voi : option vref) (ivs2 : list ivar) (es2 : list ieq) : mtype :=
+  let has_nla := existsb (fun e => is_nla e && existsb (fun p => negb (iv_external (geti ivs2 p))) (ie_unknown e)) es2 in
+  match voi with
+  | Some _ => if has_nla then MDae else MOde
+  | None => match ivs2 with [] => MUnknown | _ => if has_nla then MNla else MAlgebraic end
+  end.
+
 Definition finish (s : system) (voi : option vref) (ivs0 : list ivar) (es0 : list ieq) (vidx0 : nat) : result :=
   let '(ivs1, vidx1, iss1) := validate_vars ivs0 vidx0 in
   match iss1 with
@@ -658,25 +680,9 @@ Definition finish (s : system) (voi : option vref) (ivs0 : list ivar) (es0 : lis
       match iss2 with
       | _ :: _ => invalid_result MOverconstrained iss2
       | [] =>
-          let has_nla := existsb (fun e => is_nla e && existsb (fun p => negb (iv_external (geti ivs2 p))) (ie_unknown e)) es2 in
-          let ty := match voi with
-                    | Some _ => if has_nla then MDae else MOde
-                    | None => match ivs2 with [] => MUnknown | _ => if has_nla then MNla else MAlgebraic end
-                    end in
-          match ty with
+          match model_type voi ivs2 es2 with
           | MUnknown => invalid_result MUnknown []
-          | _ =>
-              (* a dummy equation for each true constant *)
-              let consts := filter (fun p => vtype_eqb (iv_type (geti ivs2 p)) VConstant) (seq 0 (length ivs2)) in
-              let es3 := es2 ++ map (new_var_eq ivs2) consts in
-              let avs := make_avars es3 ivs2 0 0 0 in
-              let aeqs := filter_map (make_aeq ivs2 es3 avs) (seq 0 (length es3)) in
-              let populated := map ae_pos aeqs in
-              let aeqs1 := map (clean_deps populated) aeqs in
-              mkResult ty [] voi
-                       (map snd (filter (fun x => atype_eqb (av_type (snd x)) AState) avs))
-                       (map snd (filter (fun x => negb (atype_eqb (av_type (snd x)) AState)) avs))
-                       aeqs1 (map ie_id es3)
+          | ty => package ty voi ivs2 es2
           end
       end
   end.
